@@ -62,6 +62,9 @@ type FnEnc struct {
 	nilChecked map[string][]string
 	writes     []writeRec
 	writePos   []token.Pos
+	entryRegions *[]Region // the function's modifies clause evaluated at entry
+	callResults  map[string]Val // "<short name>#<ordinal>" -> result of that call
+	lastCall     string
 }
 
 func (f *FnEnc) pos(p token.Pos) token.Position { return f.eng.fset.Position(p) }
@@ -764,6 +767,10 @@ func (f *FnEnc) mergeStates(a, b *State, cond string) *State {
 	if a.epoch != b.epoch {
 		f.epoch++
 		out.epoch = f.epoch
+	}
+	if a.gepoch != b.gepoch {
+		f.epoch++
+		out.gepoch = f.epoch
 	}
 	// defers: same static list prefix; activity flags merged
 	if len(a.defers) != len(b.defers) {
